@@ -195,8 +195,39 @@ class Stats:
 # Worker
 ####################################################################################################
 
+# Process-level configuration that libraries and the interpreter read once at start-up cannot be varied inside a worker:
+# a few generated cases per worker (chosen by a hash of the case, so the choice is replayable) are run a second time in a
+# FRESH interpreter started with one of these environments. The wrapped case {'kind': '__env__', 'env', 'inner'} is an
+# ordinary case for replay files.
+DEFAULT_ENV_VARIANTS = [
+	{'PYTHONOPTIMIZE': '1'},                                   # python -O: assert statements are not executed
+	{'PYTHONHASHSEED': '4242', 'VERIF_KEEP_HASHSEED': '1'},    # another string-hash seed: set / dict iteration orders change
+	{'PYTHONOPTIMIZE': '2'},                                   # python -OO: docstrings dropped as well
+	{'PYTHONDEVMODE': '1'},                                    # development mode: extra run-time checks, all warnings shown
+]
+ENV_CASES_PER_WORKER = {'quick': 2, 'thorough': 30}
+
+
+def _env_pick(case, ctx):
+	"""Index of the environment variant this case is also run under, or None."""
+	mod = getattr(ctx, 'env_mod', None)
+	if not mod or getattr(ctx, 'env_budget', 0) <= 0:
+		return None
+	import zlib
+	h = zlib.crc32(json.dumps(case, sort_keys=True, default=str).encode('utf-8', 'surrogatepass'))
+	if h % mod:
+		return None
+	return (h // mod)
+
+
 def _run_one(check, case, ctx):
 	"""Run a case; returns labels. Raises Violation / Reject / HarnessError."""
+	if isinstance(case, dict) and case.get('kind') == '__env__':
+		from vlib.subcase import run_subcase
+		r = run_subcase(check.ID, case['inner'], case['env'], ctx.tmpdir)
+		if r:
+			raise Violation('env:' + r[0], f'in a fresh interpreter started with {case["env"]}: {r[1]}', case)
+		return {'nontrivial': True, 'classes': ['fresh_interpreter:' + ','.join(f'{k}={v}' for k, v in sorted(case['env'].items()) if k != 'VERIF_KEEP_HASHSEED')]}
 	try:
 		labels = check.run_case(case, ctx)
 	except (Violation, Reject):
@@ -205,6 +236,14 @@ def _run_one(check, case, ctx):
 		raise HarnessError(traceback.format_exc())
 	if labels is None:
 		labels = {}
+	envs = getattr(check, 'ENV_VARIANTS', DEFAULT_ENV_VARIANTS)
+	pick = _env_pick(case, ctx) if envs else None
+	if pick is not None:
+		ctx.env_budget -= 1
+		env = envs[pick % len(envs)]
+		extra = _run_one(check, {'kind': '__env__', 'env': env, 'inner': case}, ctx)
+		labels = dict(labels)
+		labels['classes'] = list(labels.get('classes', ())) + extra['classes']
 	return labels
 
 
@@ -281,6 +320,9 @@ def worker_main(args):
 		strat = check.strategy(tier) if hasattr(check, 'strategy') else None
 		n_total = check.budget(tier) if strat is not None else 0
 		n_mine = n_total // nshards + (1 if shard < n_total % nshards else 0)
+		# environment re-runs: only for generated cases; about 3x as many candidates as the per-worker allowance
+		ctx.env_budget = getattr(check, 'ENV_CASES_PER_WORKER', ENV_CASES_PER_WORKER).get(tier, 0)
+		ctx.env_mod = max(1, n_mine // (3 * ctx.env_budget)) if ctx.env_budget else None
 		rnd = 0
 		remaining = n_mine
 		while strat is not None and remaining > 0 and len(violations) < MAX_BUCKETS and time.time() < t_end:
@@ -595,7 +637,7 @@ def main(argv=None):
 			args.seed = int(os.environ.get('VERIF_SEED', '0') or 0)
 		except ValueError:
 			args.seed = 0
-	if os.environ.get('PYTHONHASHSEED') != '0':
+	if os.environ.get('PYTHONHASHSEED') != '0' and not os.environ.get('VERIF_KEEP_HASHSEED'):
 		env = dict(os.environ)
 		env['PYTHONHASHSEED'] = '0'
 		os.execve(sys.executable, [sys.executable] + sys.argv, env)
